@@ -86,6 +86,7 @@ type NATSession struct {
 	Protocol   uint8
 	Flags      uint8
 	IsHairpin  uint8
+	_          [4]byte // tail padding: struct nat_session is 8-byte aligned (80 bytes)
 }
 
 // EIMKey is the key for Endpoint-Independent Mapping lookups
